@@ -279,6 +279,8 @@ def close(a, b, rel=1e-9):
     if isinstance(a, float) and isinstance(b, float) and math.isnan(a) and math.isnan(b):
         return True
     try:
+        if not (math.isfinite(a) and math.isfinite(b)):
+            return False                  # an infinite value is close to nothing but itself (inf <= rel * inf holds)
         return abs(a - b) <= rel * max(1.0, abs(a), abs(b))
     except (TypeError, OverflowError):
         return False
